@@ -135,10 +135,29 @@ without value -/
 def stackDecision (desc : Bool) (cs : List SegCol) : Bool :=
   disjunct desc (cs.map (·.stats)) && !(cs.any fun c => hasLiveNulls c.card c.keys c.alive)
 
+/-- the REPAIRED scan (pending fix `C17-live-nulls-scan-covers-multivalued-sort-columns`): only a
+`Full` column is exempt; the no-deletes shortcut is used for `Optional` columns only; a
+`Multivalued` column is scanned like an `Optional` one with deletes -/
+def hasLiveNullsFixed (card : Card) (keys : List SKey) (alive : List Bool) : Bool :=
+  match card with
+  | .full => false
+  | .optional => if !hasDeletes alive then true else (liveDocs keys alive).any (·.isNone)
+  | .multivalued => (liveDocs keys alive).any (·.isNone)
+
+/-- the scan the current source performs (guard `Gen.LIVE_NULLS_SCANS_MULTIVALUED`) -/
+def hasLiveNullsG (card : Card) (keys : List SKey) (alive : List Bool) : Bool :=
+  if Gen.LIVE_NULLS_SCANS_MULTIVALUED = 1 then hasLiveNullsFixed card keys alive
+  else hasLiveNulls card keys alive
+
+/-- the decision with an arbitrary live-null scan -/
+def stackDecisionWith (scan : Card → List SKey → List Bool → Bool) (desc : Bool) (cs : List SegCol) : Bool :=
+  disjunct desc (cs.map (·.stats)) && !(cs.any fun c => scan c.card c.keys c.alive)
+
 /-- the decision as far as the current source is known to have the mirrored shape (guards
 extracted into `Gen/MergeGuards`): `none` = the scan or the decision was edited, no prediction -/
 def stackDecisionG (desc : Bool) (cs : List SegCol) : Option Bool :=
-  if Gen.LIVE_NULLS_SCAN_SHAPE = 1 ∧ Gen.STACK_DECISION_SHAPE = 1 then some (stackDecision desc cs)
+  if Gen.LIVE_NULLS_SCAN_SHAPE = 1 ∧ Gen.STACK_DECISION_SHAPE = 1 then
+    some (stackDecisionWith hasLiveNullsG desc cs)
   else none
 
 /-- what the columnar format guarantees about a column of the given cardinality: `Full` = every
@@ -167,7 +186,8 @@ inductive ReachableKeys (desc : Bool) : List SKey → Prop
       ReachableKeys desc ((kmerge desc runs).map (·.1))
   | stack (cs : List SegCol) : (∀ c ∈ cs, ReachableKeys desc c.keys) →
       (∀ c ∈ cs, c.keys.length = c.alive.length) → (∀ c ∈ cs, CardOk c) →
-      (∀ c ∈ cs, c.card ≠ .multivalued) → (∀ c ∈ cs, StatsOk c) → (∀ c ∈ cs, c.liveKeys ≠ []) →
+      (∀ c ∈ cs, c.card = .multivalued → Gen.LIVE_NULLS_SCANS_MULTIVALUED = 1) →
+      (∀ c ∈ cs, StatsOk c) → (∀ c ∈ cs, c.liveKeys ≠ []) →
       stackDecisionG desc cs = some true →
       ReachableKeys desc ((cs.map SegCol.liveKeys).flatten)
 
